@@ -373,7 +373,7 @@ TIES = {
                              "GenAesFs64Ed256c", "GenAesFs64Ks128", "GenAesFs64Ks192", "GenAesFs64Ks256", "GenAesFs32", "GenAesFs32Keys",
                              "CodeAesFs64", "CodeAesFs32", "GenAesNi", "GenAesArmv8", "CodeAesNi", "CodeAesArmv8"]],
     "C04": [P_ + x for x in ["GenAesNi", "GenAesArmv8", "CodeAesNi", "CodeAesArmv8", "CodeKuznyechikSse2", "CodeKuznyechikNeon"]],
-    "C17": [P_ + x for x in ["GenAesNi", "GenAesArmv8", "CodeAesNi", "CodeAesArmv8"]],
+    "C17": [P_ + x for x in ["GenAesNi", "GenAesArmv8", "CodeAesNi", "CodeAesArmv8", "GenAesFs64Hazmat", "GenAesFs32Hazmat"]],
     "C05": [P_ + x for x in ["GenCipherDes", "GenKeysDes", "CodeDes"]],
     "C06": [P_ + x for x in ["GenCipherAria", "GenKeysAria", "GenCipherCamellia", "GenKeysCamellia", "GenCipherSm4", "GenKeysSm4",
                              "CodeAria", "CodeCamellia", "CodeSm4"]],
